@@ -50,13 +50,16 @@ Dims == {2}
 \* "Kj", "Big Type", "other-udt" and a"b need quoting in CQL (mixed case, space, dash, embedded double quote).
 UdtFields == ("u" :> <<"f1">>) @@ ("kj" :> <<"f1", "F2">>) @@ ("Kj" :> <<"f1">>)
           @@ ("Big Type" :> <<"f1">>) @@ ("other-udt" :> <<"f1">>) @@ ("a\"b" :> <<"f1">>)
+          @@ ("it's" :> <<"f1">>)                    \* an apostrophe is an ordinary character of a quoted identifier
 UdtNames  == DOMAIN UdtFields
 \* hex(ASCII) as Cassandra prints names inside UserType(...)
 Hex == ("u" :> "75") @@ ("kj" :> "6b6a") @@ ("Kj" :> "4b6a") @@ ("f1" :> "6631") @@ ("F2" :> "4632")
     @@ ("Big Type" :> "4269672054797065") @@ ("other-udt" :> "6f746865722d756474") @@ ("a\"b" :> "612262")
+    @@ ("it's" :> "69742773")
 \* the name as a CQL identifier (ColumnIdentifier.maybeQuote, see CqlLex.tla: Quote doubles the double quote)
 UdtCql == ("u" :> "u") @@ ("kj" :> "kj") @@ ("Kj" :> "\"Kj\"")
        @@ ("Big Type" :> "\"Big Type\"") @@ ("other-udt" :> "\"other-udt\"") @@ ("a\"b" :> "\"a\"\"b\"")
+       @@ ("it's" :> "\"it's\"")
 
 \* trees by depth.  NF(d): not rooted at frozen / reversed; All(d): with frozen roots
 RECURSIVE NF(_)
@@ -89,7 +92,10 @@ QTrees ==
     \cup {Bin("map", Q(a), Un("frozen", Bin("tuple", Q(b), Q(c)))) : a \in QNames, b \in QNames, c \in QNames}
     \cup {Bin("map", FQ(a), Un("frozen", Bin("tuple", FQ(b), FQ(c)))) : a \in QNames, b \in QNames, c \in QNames}
 
-Trees == LET S == All(MaxDepth) IN S \cup {Un("reversed", x) : x \in S} \cup QTrees
+\* a name with an apostrophe: as a column type and nested in a list, bare and frozen
+ApTrees == {Q("it's"), FQ("it's"), Un("list", Q("it's")), Un("list", FQ("it's"))}
+
+Trees == LET S == All(MaxDepth) IN S \cup {Un("reversed", x) : x \in S} \cup QTrees \cup ApTrees
 
 RECURSIVE Depth(_)
 Max(S) == CHOOSE m \in S : \A x \in S : x <= m
